@@ -21,3 +21,7 @@ import index "github.com/blevesearch/bleve_index_api"
 // simOrderAnalysisResults is a no-op in normal builds: analysis results
 // are used in the order the analysis workers delivered them.
 func simOrderAnalysisResults(results []index.Document) {}
+
+// simUpdateSizeLOCKED is never called in normal builds (simhook.Enabled is a
+// false constant there).
+func (c *cachedDocs) simUpdateSizeLOCKED() {}
